@@ -21,8 +21,8 @@ CLAIMED["C05"] = ("model_checking",
     "legal scripted transport(s) at the trait boundary (legality of the in-tree TCP/WebSocket/QUIC transports is checked separately by ./check tcplegal, see DESIGN 10.5); one stimulus at a time; small-scope constants; address-shape quantifier covered by the shape driver (see evidence); real-network runs judge at quiescence with 8 s slack",
     "DESIGN.md 4/C05")
 CLAIMED["C06"] = ("model_checking",
-    "same ConnMgr TLA+ specs and conformance pipeline as C05; the monitor's cap rules decide",
-    "the property monitor counts connections from the manager's accept() call until closure and checks after every recorded step of the real TransportManager: at most 2 per peer, incoming/outgoing never above the configured maxima, pending inbound sockets refused only at the limit, and a connection from an unconnected peer is accepted whenever the node is below its limits (capacity released exactly on close / accept failure); TLC checks the same rules plus exactness of the limit sets on the bounded model.",
+    "same ConnMgr TLA+ specs and conformance pipeline as C05; the monitor's cap rules decide; counter abstraction ConnCaps.tla: TLC checks ConnMgrMC => ConnCaps as an action property (refinement) and Apalache proves ConnCaps!IndInv inductive (caps for histories of any length)",
+    "the property monitor counts connections from the manager's accept() call until closure and checks after every recorded step of the real TransportManager: at most 2 per peer, incoming/outgoing never above the configured maxima, pending inbound sockets refused only at the limit, and a connection from an unconnected peer is accepted whenever the node is below its limits (capacity released exactly on close / accept failure); TLC checks the same rules plus exactness of the limit sets on the bounded model. Unbounded histories: the inductive invariant of ConnCaps (caps, exact limit sets, PeerState = open connections) is discharged by Apalache for 2x4 (quick) up to 4 peers x 6 reusable connection ids (thorough), and every transition of the bound model is checked to be a ConnCaps step.",
     "legal scripted transport(s) (TCP, TCP+WebSocket); limits in {none,0,1,2} combinations incl. one-direction-only; 2 peers in TLC, 3 in random runs",
     "DESIGN.md 4/C06")
 
@@ -53,13 +53,13 @@ CLAIMED["C04"] = ("model_checking",
   "known findings on the pinned tree are reported as KNOWN-FINDING (see known_findings.txt); no byte-level lockstep through yamux; small-scope constants",
   "DESIGN.md 4/C04, 10")
 CLAIMED["C08"] = ("model_checking",
-  "TLA+ spec SvcLife (property monitor) + SvcLifeMC (implementation-shaped model of TransportService/ConnectionHandle/ProtocolSet with scripted connections) checked by TLC; behaviours per transition, hand-written and seeded random histories replayed into real TransportServices and real ProtocolSets through the in-crate ServiceHarness; runs of two real nodes over loopback TCP / WebSocket / QUIC incl. substream-open timeouts against a held remote, and deliveries of substream results into a full protocol inbox; every recorded step validated by TLC against the monitor (and against the model for drift)",
-  "TLC explores every interleaving of establishment/closure of up to two overlapping connections (plus an offered third), inbox polling, open_substream, force_close, connection-side reads/answers/failures, inbound substreams, keep-alive downgrades and the close/task-end window for 1-2 peers, up to 3 connection ids per peer and up to 3 requests; sampled (quick) / all budgeted (thorough) maximal behaviours plus random histories over 3 peers run on the real code and each step is validated: established/closed alternate per protocol and peer, substream events only while connected, each accepted id answered at most once with the matching outcome and exactly once at quiescence unless its connection ended, ids never reused across protocols, report_connection_closed tells protocols before the manager (blocked-call probe).",
+  "TLA+ spec SvcLife (property monitor) + SvcLifeMC (implementation-shaped model of TransportService/ConnectionHandle/ProtocolSet with scripted connections) checked by TLC; behaviours per transition, hand-written and seeded random histories replayed into real TransportServices and real ProtocolSets through the in-crate ServiceHarness; runs of two real nodes over loopback TCP / WebSocket / QUIC incl. substream-open timeouts against a held remote, and deliveries of substream results into a full protocol inbox; every recorded step validated by TLC against the monitor (and against the model for drift); open-answer ledger of ConnLifeNet.tla on the real TCP connection task with a scripted yamux remote (serve / refuse / stall / abort mid-frame)",
+  "TLC explores every interleaving of establishment/closure of up to two overlapping connections (plus an offered third), inbox polling, open_substream, force_close, connection-side reads/answers/failures, inbound substreams, keep-alive downgrades and the close/task-end window for 1-2 peers, up to 3 connection ids per peer and up to 3 requests; sampled (quick) / all budgeted (thorough) maximal behaviours plus random histories over 3 peers run on the real code and each step is validated: established/closed alternate per protocol and peer, substream events only while connected, each accepted id answered at most once with the matching outcome and exactly once at quiescence unless its connection ended, ids never reused across protocols, report_connection_closed tells protocols before the manager (blocked-call probe). On the real TcpConnection::start() an accepted open_substream id is answered exactly once while the connection stays up, for a remote that serves, refuses, never answers or aborts the negotiation of that one substream with an I/O error inside a multistream-select frame.",
   "scope: at most two overlapping connections per peer (third-connection runs judged for alternation/at-most-once/ids only); scripted legal connections; keep-alive expiry by clock-shift hook; NET exactly-once only on single-connection links with 6x timeout slack; small-scope constants",
   "DESIGN.md 4/C08, 10")
 CLAIMED["C13"] = ("model_checking",
   "TLA+ monitor ReqResp + implementation-shaped model ReqRespMC checked by TLC; scripts derived from TLC behaviours, fixed shapes and seeded random scripts executed on networks of real litep2p nodes over loopback TCP / WebSocket / QUIC under a seeded schedule-perturbing executor with a proxy that cuts or stalls a direction at a byte offset (tcp, ws; on quic the remote node is dropped or frozen instead), incl. the manager-hold close window and requests whose write stalls; every recorded network validated by TLC against the monitor",
-  "TLC explores all interleavings of user commands (<=3 requests incl. two to a peer still being dialed, cancel), protocol loop, dial/connection/substream outcomes and responder behaviours for 1-2 peers and checks exactly-one-terminal, payload provenance, seen-once, the inbound bound and quiescence; ~500 (quick) / ~4600 (thorough) real multi-node executions are judged event by event by the same monitor",
+  "TLC explores all interleavings of user commands (<=3 requests incl. two to a peer still being dialed, cancel), protocol loop, dial/connection/substream outcomes and responder behaviours for 1-2 peers and checks exactly-one-terminal, payload provenance, seen-once, the inbound bound and quiescence; ~500 (quick) / ~4600 (thorough) real multi-node executions are judged event by event by the same monitor Floods of 4200 failing requests (more than the handle's event channel holds) issued before the user polls: every one still gets its terminal event.",
   "silence judged with >=3x slack on the configured timeouts, lagging networks discarded and re-run; small-scope TLC constants; MODE=impl drift validation not feasible (silent-step blow-up); environment = manager guarantees of C05/C07/C08",
   "DESIGN.md 4/C13, 10")
 CLAIMED["C14"] = ("model_checking",
@@ -90,24 +90,24 @@ CLAIMED["C20"] = ("model_checking",
 
 CLAIMED["C11"] = ("model_checking",
   "TLA+ monitor Notif + implementation-shaped two-endpoint model NotifMC checked by TLC; TLC behaviours, scenario families and a seeded random driver executed on real 2-3 node litep2p networks over loopback TCP / WebSocket / QUIC (public API, schedule-perturbing executor, TCP proxy faults incl. one-direction stalls that make a pending outbound substream time out while the connection stays up); every endpoint's command/event log validated by TLC against the monitor",
-  "TLC explores all interleavings of open/close/validation commands, handshake steps, connection-task steps, cuts, reconnects and substream failures on a model transcribed handler by handler (incl. panic arms); the user-visible grammar (alternation, no failure while open, consent before Opened, one answer per obligated open at quiescence, closed after connection loss, no panic, bystander still served) is checked in the model and on each real endpoint log.",
+  "TLC explores all interleavings of open/close/validation commands, handshake steps, connection-task steps, cuts, reconnects and substream failures on a model transcribed handler by handler (incl. panic arms); the user-visible grammar (alternation, no failure while open, consent before Opened, one answer per obligated open at quiescence, closed after connection loss, no panic, bystander still served) is checked in the model and on each real endpoint log. Scenario families include a re-open issued at once after a remote close while the protocol loop is held (shutdown notice and open command waiting together).",
   "obligations only for opens issued in a clean, connected view (faults/rejections void them); quiescence = 60 s silence, runs with a starved driver not judged; small-scope constants; 5 s no-inbound timer covered in the model only",
   "DESIGN.md 4/C11, 10")
 CLAIMED["C12"] = ("model_checking",
   "TLA+ ledger NotifStream + data-plane model NotifStreamMC checked by TLC; bursts, stalls, size classes, close/reopen and cuts executed on real litep2p networks over TCP / WebSocket / QUIC; each direction's sends and deliveries validated by TLC against the ledger",
-  "per mode: deliveries are an in-order, at-most-once subsequence of the accepted notifications with no gap inside an open period, nothing above the maximum, sync send never blocks and clogs only at capacity, async send waits, nothing lost in a stream that stays open; checked exhaustively for capacities {1,2} and on real payload-coded traffic.",
+  "per mode: deliveries are an in-order, at-most-once subsequence of the accepted notifications with no gap inside an open period, nothing above the maximum, sync send never blocks and clogs only at capacity, async send waits, nothing lost in a stream that stays open; checked exhaustively for capacities {1,2} and on real payload-coded traffic. While the sender's Connection tasks are held (no consumer) the synchronous channel may accept at most its capacity: every further synchronous send must report the clog (hold generation recorded with each send).",
   "deliveries spilling into the receiver's next period tolerated; transport backpressure cannot reach the sender so waits are provoked by starving the connection task",
   "DESIGN.md 4/C12, 10")
 
 CLAIMED["C16"] = ("model_checking",
     "TLA+ spec KadOps (property monitor) + KadOpsMC (implementation-shaped model of the Kademlia orchestration around the abstract query engine) checked by TLC; fault placements enumerated by TLC plus seeded random ones executed as networks of real litep2p nodes over loopback TCP / WebSocket / QUIC / mixed-transport networks through the public API; every recorded execution validated by TLC against the monitor",
-    "TLC explores every interleaving of open_substream_or_dial outcomes, dial failure / establishment, substream open / failure, executor send / read results and disconnects for 3 target peers x one operation of every kind x quorums One/N(2)/All (and 2 concurrent operations on 2 peers); the per-(query,peer) ledger shows every failure path reports to the owning query. 83 (quick) / ~520 (thorough) real networks with undialable, refusing, address-less, non-Kademlia, killed (before / at connection / at receipt), silent, inbound-only peers and a local connection limit run 126 / ~850 monitored operations; each trace is checked for exactly one terminal event per query id within a 3x-slack deadline and success only with the quorum of confirmed receipts",
+    "TLC explores every interleaving of open_substream_or_dial outcomes, dial failure / establishment, substream open / failure, executor send / read results and disconnects for 3 target peers x one operation of every kind x quorums One/N(2)/All (and 2 concurrent operations on 2 peers); the per-(query,peer) ledger shows every failure path reports to the owning query. 83 (quick) / ~520 (thorough) real networks with undialable, refusing, address-less, non-Kademlia, killed (before / at connection / at receipt), silent, inbound-only peers and a local connection limit run 126 / ~850 monitored operations; each trace is checked for exactly one terminal event per query id within a 3x-slack deadline and success only with the quorum of confirmed receipts put_record_to_peers whose every target is unusable (address-less unknown peer, own id, empty list) must not report success.",
     "real time: silent placements cost 15-35 s each (2 in quick, ~60 in thorough, concurrent); number of addressed peers observable only for put_record_to_peers (closest-peer puts demand >= 1 receipt); engine abstracted to the C15 guarantee; the on_connection_established open-substream error window is reached on real nodes through a 300-operation burst behind a gated dial (ChannelClogged), the check exits 2 when a transport never hits it",
     "DESIGN.md 4/C16, 10")
 
 CLAIMED["C07"] = ("model_checking",
-    "TLA+ monitor ConnLifeNet + implementation-shaped model ConnLifeNetMC (manager loop, connection task incl. error exits, protocol loops over bounded channels, protocol shutdown) checked by TLC; TLC-simulated stimulus schedules and a scenario catalogue run on real two-node litep2p networks (TCP, WebSocket through the byte proxy, QUIC) over loopback TCP (proxy, perturbing executor); every recorded execution validated by TLC against the monitor",
-    "TLC explores all interleavings of manager, connection task, protocol loops and environment for 1 peer / 2 overlapping connections / 2 protocols + 1 that shuts down / all termination causes and shows the monitor rules hold outside two tagged defect paths (and everywhere once both are repaired); the same monitor validates the application and per-protocol event streams of real node pairs for remote crash, network cut at any byte, force_close, idle expiry, stalled/pending opens, paused protocol, protocol shutdown, simultaneous dials, connect/disconnect cycles and redial probes.",
+    "TLA+ monitor ConnLifeNet + implementation-shaped model ConnLifeNetMC (manager loop, connection task incl. error exits, protocol loops over bounded channels, protocol shutdown) checked by TLC; TLC-simulated stimulus schedules and a scenario catalogue run on real two-node litep2p networks (TCP, WebSocket through the byte proxy, QUIC) over loopback TCP (proxy, perturbing executor); every recorded execution validated by TLC against the monitor; manager-level close bursts on the real TransportManager judged by per-peer ledgers of the same monitor",
+    "TLC explores all interleavings of manager, connection task, protocol loops and environment for 1 peer / 2 overlapping connections / 2 protocols + 1 that shuts down / all termination causes and shows the monitor rules hold outside two tagged defect paths (and everywhere once both are repaired); the same monitor validates the application and per-protocol event streams of real node pairs for remote crash, network cut at any byte, force_close, idle expiry, stalled/pending opens, paused protocol, protocol shutdown, simultaneous dials, connect/disconnect cycles and redial probes. Close reports of several connections queued in the real manager's channel before it is polled again (400 quick / 6000 thorough bursts over 3 peers x 1-2 connections): every peer whose last connection is among them is reported closed to the application exactly once.",
     "public API only; ordering from one recorded log + 10 s deadlines with load probe; really full channels only in the model; protocols-before-manager at model level (and by the blocked-call probe of C08)",
     "DESIGN.md 4/C07, 10")
 CLAIMED["C09"] = ("model_checking",
@@ -118,8 +118,8 @@ CLAIMED["C09"] = ("model_checking",
 
 # harness binaries each claimed property needs (setup builds exactly these)
 BINS = {"C17": ["store"], "C05": ["connmgr", "netdial"], "C06": ["connmgr"], "C10": ["addrbook"],
-        "C01": ["noisehs"], "C02": ["noisepipe"], "C03": ["mss"], "C04": ["substream", "reqresp"], "C08": ["svc"], "C13": ["reqresp"],
-        "C14": ["routing"], "C15": ["query"], "C18": ["peerid"], "C19": ["decoders"], "C20": ["bitswap"], "C11": ["notif"], "C12": ["notif"], "C16": ["kadops"], "C07": ["connlife", "svc", "connunit"], "C09": ["keepalive", "kasvc"]}
+        "C01": ["noisehs"], "C02": ["noisepipe"], "C03": ["mss"], "C04": ["substream", "reqresp"], "C08": ["svc", "connunit"], "C13": ["reqresp"],
+        "C14": ["routing"], "C15": ["query"], "C18": ["peerid"], "C19": ["decoders"], "C20": ["bitswap"], "C11": ["notif"], "C12": ["notif"], "C16": ["kadops"], "C07": ["connlife", "svc", "connunit", "connmgr"], "C09": ["keepalive", "kasvc"]}
 
 NOT_YET = "check not built yet (work in progress, see DESIGN.md build order)"
 NA = {}
